@@ -259,7 +259,7 @@ CHECKS["C17"] = dict(
           "ratio, trace prefix property, bit-identical repeats in-process and in two fresh interpreters, jit on/off agreement."),
     note=("Trusted: Coq kernel; table extractor translate/c17_tables.py; SciPy L-BFGS-B contract. PARTIAL / RUNTIME: optimiser quality, "
           "cross-process bit-reproducibility and jit agreement are properties of SciPy/XLA executions - tested, not proved; the generated objective IS proved strictly and 1-strongly convex with at most one minimiser and quadratic growth "
-          "around it (C17_loss_strictly_convex / _strongly_convex / _minimiser_unique / _quadratic_growth) and to HAVE exactly one minimiser (C17_loss_has_unique_minimiser: bounded below, minimising sequence Cauchy by strong convexity, completeness of R^k, continuity; uses Epsilon.epsilon_statement of the standard library for the choice of the sequence); jit difference after several Adam/ADVI steps is measured, not bounded."),
+          "around it (C17_loss_strictly_convex / _strongly_convex / _minimiser_unique / _quadratic_growth) and to HAVE exactly one minimiser (C17_loss_has_unique_minimiser: bounded below, minimising sequence Cauchy by strong convexity, completeness of R^k, continuity; uses Epsilon.epsilon_statement of the standard library for the choice of the sequence); jit difference after 2..100 Adam/ADVI steps is asserted against the margin 1e-6 (1 + |z|) (a labelled test margin, not a derived bound; 0 to 3e-15 on the unchanged tree), longer runs are measured only; one run length per optimiser is off every usual block size."),
     technique="Coq proof over AST-generated tables + loop-model induction + optimiser contract; runtime clauses by execution",
     design="4/C17")
 NOT_YET = {}
